@@ -245,8 +245,10 @@ TQuery ==
           pf == RangeProofSet(impl, k, c.last)
           ok == {t \in RTampers(pf) : REnabled(pf, t)}
           \* w odd: the node the boundary's path ends in (it holds the leaf / the divergence)
-          atEnd == {t \in ok : t.op # "none" /\ t.op # "drop" /\ t.i = Len(p1)} IN
-      \E tm \in R(IF w \in {1, 3} /\ atEnd # {} THEN atEnd ELSE ok) :
+          atEnd == {t \in ok : t.op # "none" /\ t.op # "drop" /\ t.i = Len(p1)}
+          \* w = 1: ... its leaf-side child replaced (with the value an alter-value claim asserts)
+          atEndJunk == {t \in atEnd : t.op \in {"c:=junk", "l:=junk", "r:=junk"}} IN
+      \E tm \in R(IF w = 1 /\ atEndJunk # {} THEN atEndJunk ELSE IF w \in {1, 3} /\ atEnd # {} THEN atEnd ELSE ok) :
         LET onFirst == tm.op = "none" \/ tm.i <= Len(p1)
             o == IF impl = "trie2" THEN VRange(Root(kv), k, c.cl, Apply(pf, k, tm), FALSE) ELSE [r |-> ""] IN
         /\ act' = [name |-> "RTamper", impl |-> impl, k |-> k, last |-> c.last, m |-> c.m, cl |-> c.cl, tm |-> tm,
